@@ -440,10 +440,79 @@ var sdpLines = []string{
 	"b=AS:500", "i=info", "a=framerate:25", "a=x-dimensions:1920,1080", "a=range:npt=0-", "",
 	// attributes that stop short
 	"a=key-mgmt:mikey", "a=key-mgmt:mikey ", "a=key-mgmt:", "a=key-mgmt:mikey !!!", "a=rtpmap:", "a=fmtp:", "a=control:", "a=mid:", "a=fmtp:97 config=", "a=rtpmap:97 /",
+	// every other line type of RFC 4566, whole and cut short (the parser is a state machine over line types: a line that
+	// is skipped or refused changes what the next one meets)
+	"t=", "t=0", "t=0 0 0", "t=3034423619 3042462419", "r=7d 1h 0", "r=604800 3600 0 90000", "r=", "r=7d", "r=7d 1h", "r=x y z",
+	"z=2882844526 -1h 2898848070 0", "z=", "z=0", "z=0 0 0", "k=prompt", "k=clear:x", "k=", "e=a@b", "e=", "p=+1 617 555-6011", "p=", "u=http://x/y", "u=",
+	"b=", "b=AS", "b=AS:", "b=X-YZ:128", "b=AS:x", "c=", "c=IN", "c=IN IP4", "c=IN IP4 224.2.36.42/127", "c=IN IP4 224.2.1.1/127/3", "c=IN IP6 ff15::101/3", "c=IN IP6 ::1",
+	"o=", "o=- 0", "o=- 0 0 IN IP4", "o=jdoe 2890844526 2890842807 IN IP6 ::1", "s=", "i=", "v=", "v=1", "v=0 0",
+	"m=", "m=video", "m=video 0", "m=video 0 RTP/AVP", "m=video 49170/2 RTP/AVP 31", "m=video x RTP/AVP 96", "m=video 0 UDP 96", "m=text 0 RTP/AVP 96",
+	"a=", "a", "=", "x=y", "a=sendrecv", "a=inactive", "a=recvonly:", "a=rtpmap:96 H264/90000 ", "a=fmtp:96", "a=ssrc:1 cname:x", "a=ssrc:", "a=crypto:1 AES_CM_128_HMAC_SHA1_80 inline:",
+}
+
+// linesOfType returns the dictionary lines of one SDP line type (whole and cut short).
+func linesOfType(letter byte) []string {
+	var out []string
+	for _, l := range sdpLines {
+		if len(l) >= 2 && l[0] == letter && l[1] == '=' {
+			out = append(out, l)
+		}
+	}
+	return out
+}
+
+// genOrderedSDP follows the line order of RFC 4566 (session part, time descriptions with repeat lines, media blocks), so
+// that the parser's state machine gets past its first lines; each slot holds zero to two lines of its type, whole or
+// cut short.
+func genOrderedSDP(t *rapid.T) []string {
+	var ls []string
+	slot := func(letter byte, maxN int, often bool) {
+		opts := linesOfType(letter)
+		n := rapid.IntRange(0, maxN).Draw(t, "slot_"+string(letter))
+		if often && n == 0 && rapid.IntRange(0, 3).Draw(t, "slot_force") != 0 {
+			n = 1
+		}
+		for i := 0; i < n; i++ {
+			ls = append(ls, rapid.SampledFrom(opts).Draw(t, "slotline"))
+		}
+	}
+	// the three opening lines are mostly the sound ones: anything else ends the parse at once
+	for _, l := range []string{"v=0", "o=- 0 0 IN IP4 127.0.0.1", "s=x"} {
+		if rapid.IntRange(0, 9).Draw(t, "sound_opening") != 0 {
+			ls = append(ls, l)
+		} else {
+			slot(l[0], 1, true)
+		}
+	}
+	for _, c := range []byte("iuepcb") {
+		slot(c, 1, false)
+	}
+	nt := rapid.IntRange(0, 2).Draw(t, "ntimes")
+	for i := 0; i < nt; i++ {
+		slot('t', 1, true)
+		slot('r', 2, false)
+	}
+	for _, c := range []byte("zka") {
+		slot(c, 2, false)
+	}
+	nm := rapid.IntRange(0, 3).Draw(t, "nmedia")
+	for i := 0; i < nm; i++ {
+		slot('m', 1, true)
+		for _, c := range []byte("icbk") {
+			slot(c, 1, false)
+		}
+		slot('a', 2, true)
+		slot('a', 2, false)
+	}
+	return ls
 }
 
 func genSDPText(t *rapid.T) []byte {
-	switch rapid.IntRange(0, 3).Draw(t, "src") {
+	switch rapid.IntRange(0, 4).Draw(t, "src") {
+	case 4:
+		ls := genOrderedSDP(t)
+		nl := rapid.SampledFrom([]string{"\r\n", "\n"}).Draw(t, "newline")
+		return []byte(strings.Join(ls, nl) + nl)
 	case 0:
 		return []byte(rapid.String().Draw(t, "arbitrary"))
 	case 1:
@@ -486,7 +555,13 @@ func genSDPText(t *rapid.T) []byte {
 	default:
 		n := rapid.IntRange(3, 24).Draw(t, "nlines")
 		var ls []string
-		ls = append(ls, "v=0", "o=- 0 0 IN IP4 127.0.0.1", "s=x", "t=0 0")
+		// the customary opening, each line of it left out now and then (a state machine that never sees "t=0 0" first
+		// is in another state when the drawn lines arrive)
+		for _, l := range []string{"v=0", "o=- 0 0 IN IP4 127.0.0.1", "s=x", "t=0 0"} {
+			if rapid.IntRange(0, 5).Draw(t, "keep_opening") != 0 {
+				ls = append(ls, l)
+			}
+		}
 		for i := 0; i < n; i++ {
 			ls = append(ls, rapid.SampledFrom(sdpLines).Draw(t, "line"))
 		}
